@@ -156,7 +156,13 @@ def assertLegalY (F : Facts) (D : Decls) (src : TyRef) (ty : TyRef) : Bool :=
     ims.all (fun im =>
       match lookupMethodY F D t im.1 with
       | none => false
-      | some h => (isPtr || !h.meth.ptr || (F.assertPtrOwnOnly && !h.path.isEmpty)) && h.meth.sig == im.2)
+      | some h =>
+        -- a pointer-receiver method of a non-pointer type is rejected: always (before 5c3b0c5), when it is
+        -- declared on the type itself (since), and also when it is promoted without crossing an embedded
+        -- pointer (`needsPtrForMethod`, since 6b1f98f)
+        let rejected := !isPtr && h.meth.ptr &&
+          (!F.assertPtrOwnOnly || h.path.isEmpty || (F.assertPtrNeedsPtr && !pathViaPtr D t h.path))
+        !rejected && h.meth.sig == im.2)
   if ims.isEmpty then true else
   match ty with
   | .ptr t => chk t true
